@@ -1299,4 +1299,231 @@ theorem RangeTail.all_exact {hi step c : Num} {xs : List Num} (h : RangeTail hi 
     · exact hc
     · exact ih (binop_add_isExact _ _ _ hc hs hb) a ha'
 
+/-! ### aggregates on arrays of wrapped numbers (plain numbers; quantities of one dimension) -/
+
+/-- what the aggregate bodies need from the element kind: elements wrap a number; `+`, `/ k`, `<`, `==` on
+    wrapped elements act on the numbers (at every nesting depth of `dispatch`); a stored number stays as it
+    is under `simplify_type`; the wrapped value is not a lazy combinatoric -/
+structure Wraps (wrap : Num → Val) : Prop where
+  add : ∀ k a b, dispatchV (k + 2) "+" [wrap a, wrap b] [] = liftW wrap (binop .add a b)
+  divInt : ∀ k a (m : Int), dispatchV (k + 2) "/" [wrap a, .num (.int m)] [] = liftW wrap (binop .div a (.int m))
+  lt : ∀ k a b, rtruth (fun nm as => dispatchV (k + 2) nm as []) "<" [wrap a, wrap b] = .ok (cmpLt a b)
+  eq : ∀ k a b, rtruth (fun nm as => dispatchV (k + 2) nm as []) "==" [wrap a, wrap b] = .ok (cmpEq a b)
+  simp : ∀ x, Canon x → simplifyVal (wrap x) = .ok (wrap x)
+  inTable : ∀ x, (resolveDesc "in" [classOf (wrap x), cArr] []).toOption = some (chP [tAny, tArray] "in|(Any, Array)|ka.functions.in_array" .inArray)
+  notComb : ∀ x, notComb (wrap x) = true
+
+theorem foldl_add_wrap {wrap : Num → Val} (W : Wraps wrap) (k : Nat) (t : List Num) (a : Num) :
+    (t.map wrap).foldlM (fun acc e => dispatchV (k + 2) "+" [acc, e] []) (wrap a)
+      = liftW wrap (t.foldlM (fun acc e => binop .add acc e) a) := by
+  induction t generalizing a with
+  | nil => rfl
+  | cons h t ih =>
+    simp only [List.map_cons, List.foldlM_cons, W.add k a h]
+    cases binop .add a h with
+    | error e => rfl
+    | ok r => simp only [liftW, bind, Except.bind]; exact ih r
+
+/-- **`sum`** of a non-empty array of wrapped stored numbers is the fragment's sum, wrapped; of the empty
+    array it is the plain number 0 -/
+theorem dispatch_sum_wrap {wrap : Num → Val} (W : Wraps wrap) (k : Nat) (xs : List Num) (hc : ∀ x ∈ xs, Canon x) :
+    dispatchV (k + 3) "sum" [.arr (xs.map wrap)] [] =
+      if xs = [] then .ok (.num (.int 0)) else liftW wrap (Arr.arraySum xs) := by
+  have t := qty_table.2.2.2.2.2.2.2.2
+  rw [step1 (a := .arr (xs.map wrap)) (t1 := tArray) (desc := "sum|(Array)|ka.functions.array_sum") (code := .arrSum) t rfl]
+  simp only [BodyCode.run]
+  cases xs with
+  | nil => rfl
+  | cons h t =>
+    simp only [List.map_cons, bArrSum, Arr.arraySum, foldl_add_wrap W k t h, reduceCtorEq, if_false]
+    cases hr : t.foldlM (fun acc e => binop .add acc e) h with
+    | error e => rfl
+    | ok r =>
+      simp only [liftW, bind, Except.bind]
+      exact W.simp r (foldlM_add_canon t h r (hc h (by simp)) hr)
+
+/-- **`mean`**: the sum divided by the plain number of elements; the empty array is rejected -/
+theorem dispatch_mean_wrap {wrap : Num → Val} (W : Wraps wrap) (k : Nat) (xs : List Num) (hc : ∀ x ∈ xs, Canon x) :
+    dispatchV (k + 4) "mean" [.arr (xs.map wrap)] [] = liftW wrap (Arr.arrayMean xs) := by
+  rw [step1 (a := .arr (xs.map wrap)) arr_table.2.1 rfl]
+  simp only [BodyCode.run, bArrMean, Arr.arrayMean, List.isEmpty_map, List.length_map]
+  cases xs with
+  | nil => rfl
+  | cons h t =>
+    simp only [List.isEmpty_cons, Bool.false_eq_true, if_false, dispatch_sum_wrap W k (h :: t) hc, reduceCtorEq]
+    cases hs : Arr.arraySum (h :: t) with
+    | error e => rfl
+    | ok s =>
+      simp only [liftW, bind, Except.bind, W.divInt (k + 1) s]
+      cases hd : binop .div s (.int (h :: t).length) with
+      | error e => rfl
+      | ok r => exact W.simp r (binop_idem hd)
+
+theorem foldl_min_wrap {wrap : Num → Val} (W : Wraps wrap) (k : Nat) (t : List Num) (a : Num) :
+    (t.map wrap).foldlM (fun r e => do
+        if ← rtruth (fun nm as => dispatchV (k + 2) nm as []) "<" [e, r] then pure e else pure r) (wrap a)
+      = .ok (wrap (t.foldl (fun r e => if cmpLt e r then e else r) a)) := by
+  induction t generalizing a with
+  | nil => rfl
+  | cons h t ih =>
+    simp only [List.map_cons, List.foldlM_cons, List.foldl_cons, W.lt, bind, Except.bind]
+    cases cmpLt h a with
+    | true => exact ih h
+    | false => exact ih a
+
+theorem foldl_max_wrap {wrap : Num → Val} (W : Wraps wrap) (k : Nat) (t : List Num) (a : Num) :
+    (t.map wrap).foldlM (fun r e => do
+        if ← rtruth (fun nm as => dispatchV (k + 2) nm as []) "<" [r, e] then pure e else pure r) (wrap a)
+      = .ok (wrap (t.foldl (fun r e => if cmpLt r e then e else r) a)) := by
+  induction t generalizing a with
+  | nil => rfl
+  | cons h t ih =>
+    simp only [List.map_cons, List.foldlM_cons, List.foldl_cons, W.lt, bind, Except.bind]
+    cases cmpLt a h with
+    | true => exact ih h
+    | false => exact ih a
+
+/-- **`min`**: the first minimal element; the empty array is rejected -/
+theorem dispatch_min_wrap {wrap : Num → Val} (W : Wraps wrap) (k : Nat) (xs : List Num) (hc : ∀ x ∈ xs, Canon x) :
+    dispatchV (k + 3) "min" [.arr (xs.map wrap)] [] = liftW wrap (Arr.arrayMin xs) := by
+  rw [step1 (a := .arr (xs.map wrap)) arr_table.2.2.2.2.1 rfl]
+  cases xs with
+  | nil => rfl
+  | cons h t =>
+    simp only [BodyCode.run, List.map_cons, bArrMin, Arr.arrayMin]
+    have := foldl_min_wrap W k (h :: t) h
+    simp only [List.map_cons] at this
+    rw [this]
+    have hm := foldl_pick_mem (fun r e => cmpLt e r) (h :: t) h
+    simp only [liftW, bind, Except.bind]
+    exact W.simp _ (hc _ (by simpa using hm))
+
+/-- **`max`**: the first maximal element; the empty array is rejected -/
+theorem dispatch_max_wrap {wrap : Num → Val} (W : Wraps wrap) (k : Nat) (xs : List Num) (hc : ∀ x ∈ xs, Canon x) :
+    dispatchV (k + 3) "max" [.arr (xs.map wrap)] [] = liftW wrap (Arr.arrayMax xs) := by
+  rw [step1 (a := .arr (xs.map wrap)) arr_table.2.2.2.1 rfl]
+  cases xs with
+  | nil => rfl
+  | cons h t =>
+    simp only [BodyCode.run, List.map_cons, bArrMax, Arr.arrayMax]
+    have := foldl_max_wrap W k (h :: t) h
+    simp only [List.map_cons] at this
+    rw [this]
+    have hm := foldl_pick_mem (fun r e => cmpLt r e) (h :: t) h
+    simp only [liftW, bind, Except.bind]
+    exact W.simp _ (hc _ (by simpa using hm))
+
+theorem inArrayLoop_wrap {wrap : Num → Val} (W : Wraps wrap) (k : Nat) (x : Num) (xs : List Num) :
+    inArrayLoop (fun nm as => dispatchV (k + 2) nm as []) (wrap x) (xs.map wrap) = .ok (xs.any (fun e => cmpEq x e)) := by
+  induction xs with
+  | nil => rfl
+  | cons h t ih =>
+    simp only [List.map_cons, inArrayLoop, W.eq, bind, Except.bind, List.any_cons]
+    cases cmpEq x h with
+    | true => rfl
+    | false => simpa using ih
+
+/-- **`x in xs`**: 1 when some element is `==` -/
+theorem dispatch_in_wrap {wrap : Num → Val} (W : Wraps wrap) (k : Nat) (x : Num) (xs : List Num) :
+    dispatchV (k + 3) "in" [wrap x, .arr (xs.map wrap)] [] = .ok (.num (Arr.inArray x xs)) := by
+  rw [step2 (a := wrap x) (b := .arr (xs.map wrap)) (W.inTable x) (W.notComb x) rfl]
+  simp only [BodyCode.run, bInArray, inArrayLoop_wrap W k, Except.map, b2v, Arr.inArray]
+  rfl
+
+/-- plain numbers -/
+theorem wraps_num : Wraps Val.num where
+  add k a b := by rw [← liftN_eq_liftW]; exact dispatch_add (k + 1) a b
+  divInt k a m := by rw [← liftN_eq_liftW]; exact dispatch_div (k + 1) a (.int m)
+  lt k a b := rtruth_lt (k + 1) a b
+  eq k a b := rtruth_eq (k + 1) a b
+  simp := simplifyVal_num_canon
+  inTable x := arr_table.2.2.2.2.2.1 _ (numClass_mem x)
+  notComb _ := rfl
+
+/-- **Table fact.** membership of a quantity in an array reaches `in_array`. -/
+theorem in_table_qty :
+    (resolveDesc "in" [cQty, cArr] []).toOption = some (chP [tAny, tArray] "in|(Any, Array)|ka.functions.in_array" .inArray) := by
+  decide +kernel
+
+theorem rtruth_qty (k : Nat) (op : Qty.QOp) (hop : op = .lt ∨ op = .eq) (a b : Num) (d : List Int) :
+    rtruth (fun nm as => dispatchV (k + 2) nm as []) (qopName op) [.qty a d, .qty b d] =
+      .ok (match op with | .lt => cmpLt a b | _ => cmpEq a b) := by
+  simp only [rtruth, dispatch_qtyOp k op a d b d]
+  rcases hop with rfl | rfl <;>
+    simp only [Qty.qtyOp, bne_self_eq_false, Bool.false_eq_true, if_false, Qty.numOp, bind, Except.bind, liftE, Except.map,
+      ofQVal, truthy_ite]
+
+/-- quantities of one dimension `d` (a dimension vector of the unit table's length) -/
+theorem wraps_qty (d : List Int) (hd : d.length = nBase) : Wraps (fun m => Val.qty m d) where
+  add k a b := by
+    have h := dispatch_qtyOp k .add a d b d
+    simp only [qopName] at h
+    rw [h]
+    simp only [Qty.qtyOp, bne_self_eq_false, Bool.false_eq_true, if_false, Qty.numOp]
+    cases binop .add a b <;> rfl
+  divInt k a m := by
+    have h := dispatch_applyOp k .div (.qty a d) (.num (.int m))
+    simp only [qopName, ofQVal] at h
+    rw [h]
+    simp only [liftQ, Qty.applyOp, Qty.qtyOp, Qty.numOp, dimSub_zero d nBase (Nat.le_of_eq hd)]
+    cases binop .div a (.int m) <;> rfl
+  lt k a b := rtruth_qty k .lt (Or.inl rfl) a b d
+  eq k a b := rtruth_qty k .eq (Or.inr rfl) a b d
+  simp x h := simplifyVal_qty_canon x d h
+  inTable _ := in_table_qty
+  notComb _ := rfl
+
+/-! #### prod of quantities: the dimension is added once per element -/
+
+/-- dimension of a product of `k` quantities of dimension `d`, as `array_prod` accumulates it
+    (`e * result`, from the plain number 1) -/
+def prodDim (d : List Int) : Nat → List Int
+  | 0 => Qty.Dim.zero nBase
+  | k + 1 => Qty.Dim.add d (prodDim d k)
+
+/-- the accumulator of `array_prod` after `j` elements -/
+def prodAcc (d : List Int) : Nat → Num → Qty.QVal
+  | 0, a => .num a
+  | j + 1, a => .qty a (prodDim d (j + 1))
+
+theorem foldl_mul_qty (k : Nat) (d : List Int) (t : List Num) (a : Num) (j : Nat) :
+    (t.map (fun m => Val.qty m d)).foldlM (fun acc e => dispatchV (k + 2) "*" [e, acc] []) (ofQVal (prodAcc d j a))
+      = (liftE (t.foldlM (fun acc e => binop .mul e acc) a)).map (fun r => ofQVal (prodAcc d (j + t.length) r)) := by
+  induction t generalizing a j with
+  | nil => rfl
+  | cons h t ih =>
+    have hd : dispatchV (k + 2) "*" [Val.qty h d, ofQVal (prodAcc d j a)] [] =
+        liftQ (Qty.applyOp nBase .mul (.qty h d) (prodAcc d j a)) := dispatch_applyOp k .mul (.qty h d) (prodAcc d j a)
+    simp only [List.map_cons, List.foldlM_cons, hd]
+    have hstep : Qty.applyOp nBase .mul (.qty h d) (prodAcc d j a) =
+        (binop .mul h a).map (fun r => prodAcc d (j + 1) r) := by
+      cases j with
+      | zero => simp only [prodAcc, Qty.applyOp, Qty.qtyOp, Qty.numOp, prodDim]; cases binop .mul h a <;> rfl
+      | succ j => simp only [prodAcc, Qty.applyOp, Qty.qtyOp, Qty.numOp, prodDim]; cases binop .mul h a <;> rfl
+    rw [hstep]
+    cases binop .mul h a with
+    | error e => rfl
+    | ok r =>
+      simp only [liftQ, liftE, Except.map, bind, Except.bind, List.length_cons]
+      rw [ih r (j + 1), show j + 1 + t.length = j + (t.length + 1) by omega]
+      cases List.foldlM (fun acc e => binop .mul e acc) r t <;> rfl
+
+/-- **`prod`** of an array of quantities of dimension `d`: the fragment's product of the magnitudes, with
+    the dimension added once per element; of the empty array the plain number 1 -/
+theorem dispatch_prod_qty (k : Nat) (d : List Int) (xs : List Num) :
+    dispatchV (k + 3) "prod" [.arr (xs.map (fun m => Val.qty m d))] [] =
+      (liftE (Arr.arrayProd xs)).map (fun r => ofQVal (prodAcc d xs.length r)) := by
+  rw [step1 (a := .arr (xs.map (fun m => Val.qty m d))) arr_table.1 rfl]
+  have hf := foldl_mul_qty k d xs (.int 1) 0
+  simp only [prodAcc, ofQVal, Nat.zero_add] at hf
+  simp only [BodyCode.run, bArrProd, Arr.arrayProd, hf]
+  cases hr : xs.foldlM (fun acc e => binop .mul e acc) (.int 1) with
+  | error e => rfl
+  | ok r =>
+    have hcr : Canon r := foldlM_mul_canon xs (.int 1) r rfl hr
+    simp only [liftE, Except.map, bind, Except.bind]
+    cases xs.length with
+    | zero => exact simplifyVal_num_canon r hcr
+    | succ j => exact simplifyVal_qty_canon r _ hcr
+
 end KaVerif.PipeArr
